@@ -63,6 +63,9 @@ def gen(tier, rng, harness=None):
     for _ in range(n):
         ts, gs = core2gen.gen_core2(rng)
         lines += ["core2.reparse %s %s" % (ts, gs), "!core2.rt %s %s" % (ts, gs)]
+        from . import core3gen
+        a = " ".join(core3gen.gen_func(rng))
+        lines += ["core3.reparse " + a, "!core3.rt " + a]
     for t in modprops.corpus_texts():
         lines.append("!mod.stable - %s" % hx(t))
     # every construct of the one-construct catalogue (all enum keywords, attributes, instructions, constants, constant expressions,
